@@ -95,6 +95,32 @@ func c12Scenarios(batch int) []Scenario {
 			wantHeader(e, x, "R", 1, viol)
 			x.Outcome = res(e, "R").String()
 		}})
+	// S10: a batch with a gap inside, around the height the reader waits for: the reader must not be
+	// woken into a failing lookup, and gets the header once it is appended
+	out = append(out, Scenario{Name: "S10-gapped-batch-around-waited-height", Batch: batch, Preload: 1,
+		Build: func(e *Env) {
+			ctx, _ := context.WithTimeout(bg, readerDeadline) //nolint
+			reader(e, "R", ctx, 5)
+			e.Thread("W", func() {
+				_ = e.St.Append(bg, e.C[2], e.C[3], e.C[4], e.C[7])
+				e.Note("Werr", e.St.Append(bg, e.C[5], e.C[6]))
+			})
+		},
+		Check: func(e *Env, x *Exec, viol func(string, string, ...any)) {
+			wantHeader(e, x, "R", 5, viol)
+			x.Outcome = res(e, "R").String()
+		}})
+	// S11: a descending batch that is not contiguous with Head
+	out = append(out, Scenario{Name: "S11-descending-batch-above-gap", Batch: batch, Preload: 1,
+		Build: func(e *Env) {
+			ctx, _ := context.WithTimeout(bg, readerDeadline) //nolint
+			reader(e, "R", ctx, 4)
+			e.Thread("W", func() { e.Note("Werr", e.St.Append(bg, e.C[4], e.C[3])) })
+		},
+		Check: func(e *Env, x *Exec, viol func(string, string, ...any)) {
+			wantHeader(e, x, "R", 4, viol)
+			x.Outcome = res(e, "R").String()
+		}})
 	// S2: reader for a height that is appended non-contiguously first
 	out = append(out, Scenario{Name: "S2-gapped-then-filled", Batch: batch, Preload: 1,
 		Build: func(e *Env) {
